@@ -5,6 +5,7 @@ import (
 	"encoding/json"
 	"fmt"
 	"sort"
+	"strings"
 
 	sdk "github.com/cosmos/cosmos-sdk/types"
 	abci "github.com/tendermint/tendermint/abci/types"
@@ -78,6 +79,7 @@ type Action struct {
 	Attrs   *AttrMap      `json:"attrs,omitempty"`
 	Keys    *[]string     `json:"keys,omitempty"`
 	Gap     int64         `json:"gap,omitempty"`
+	Rate    *int64        `json:"rate,omitempty"`
 }
 
 func (a Action) Key() string {
@@ -267,6 +269,9 @@ type TxResult struct {
 // registered on the app's own message service router, state committed to ctx only on success, panics
 // recovered as rejection. The message goes through a protobuf round trip first, as it would on the wire.
 func (w *World) RunTx(ctx sdk.Context, a Action) (res TxResult, herr error) {
+	if strings.HasPrefix(a.Act, "K") {
+		return w.runKeeper(ctx, a)
+	}
 	msg, method, err := w.Msg(a)
 	if err != nil {
 		return res, err
@@ -304,6 +309,67 @@ func (w *World) RunTx(ctx sdk.Context, a Action) (res TxResult, herr error) {
 			res.Data, res.Log = r.Data, r.Log
 			res.Events = r.Events
 		}
+	}()
+	if res.OK {
+		write()
+	}
+	return res, nil
+}
+
+// runKeeper drives the application's own escrow keeper directly (family E). Same commit/discard discipline as a
+// transaction. The account is ("deployment", owner/dseq) with no deployment record behind it.
+func (w *World) runKeeper(ctx sdk.Context, a Action) (res TxResult, herr error) {
+	did, err := w.did(a)
+	if err != nil {
+		return res, err
+	}
+	aid := dtypes.EscrowAccountForDeployment(did)
+	k := w.App.VerifKeepers().Escrow
+	owner, _ := w.Addr(a.T)
+	var pid string
+	var payee sdk.AccAddress
+	if a.P != "" {
+		b, err := w.bidID(a)
+		if err != nil {
+			return res, err
+		}
+		pid = mtypes.EscrowPaymentForLease(mtypes.LeaseID(b))
+		payee, _ = w.Addr(a.P)
+	}
+	res.Signers = []string{}
+	cctx, write := ctx.CacheContext()
+	cctx = cctx.WithEventManager(sdk.NewEventManager())
+	func() {
+		defer func() {
+			if r := recover(); r != nil {
+				res.Err = fmt.Sprintf("panic: %v", r)
+			}
+		}()
+		var err error
+		switch a.Act {
+		case "KAccountCreate":
+			err = k.AccountCreate(cctx, aid, owner, coin(i64(a.Deposit)))
+		case "KDeposit":
+			err = k.AccountDeposit(cctx, aid, coin(i64(a.Amount)))
+		case "KSettle":
+			_, err = k.AccountSettle(cctx, aid)
+		case "KAccountClose":
+			err = k.AccountClose(cctx, aid)
+		case "KPaymentCreate":
+			err = k.PaymentCreate(cctx, aid, pid, payee, coin(i64(a.Rate)))
+		case "KPaymentWithdraw":
+			err = k.PaymentWithdraw(cctx, aid, pid)
+		case "KPaymentClose":
+			err = k.PaymentClose(cctx, aid, pid)
+		default:
+			err = fmt.Errorf("unknown keeper action %q", a.Act)
+		}
+		if err != nil {
+			res.Err = err.Error()
+			return
+		}
+		res.OK = true
+		res.Events = cctx.EventManager().ABCIEvents()
 	}()
 	if res.OK {
 		write()
